@@ -74,16 +74,22 @@ type EngineOpts struct {
 	Bystander []Step
 }
 
-// axisInfo collects AbsInfo for all axes of a description.
-func axisInfos(d *Desc) map[evdev.EvCode]evdev.AbsInfo {
+// axisInfosOf collects the AbsInfo of the axes one sub-handler (event node) reports.
+func axisInfosOf(d *Desc, sub string) map[evdev.EvCode]evdev.AbsInfo {
 	infos := map[evdev.EvCode]evdev.AbsInfo{}
 	for _, m := range d.Mappings {
 		for _, a := range m.Axes {
-			infos[evdev.EvCode(a.Code)] = evdev.AbsInfo{Minimum: a.Min, Maximum: a.Max}
+			if a.Sub == sub {
+				infos[evdev.EvCode(a.Code)] = evdev.AbsInfo{Minimum: a.Min, Maximum: a.Max}
+			}
 		}
 	}
 	return infos
 }
+
+// setEventName gives a handler its event-node name (unexported in package input). Builds with the tag "verif"
+// (every build of ./check) replace it with the hook input.VerifDeviceInfo; without the hook all handlers share the name "".
+var setEventName = func(event string, di input.DeviceInfo) input.DeviceInfo { return di }
 
 func subHandlers(d *Desc) []string {
 	set := map[string]bool{"": true}
@@ -108,10 +114,20 @@ func makeInputDevice(d *Desc, name string) input.Device {
 		ID:         input.InputID{Bus: d.ID[0], Vendor: d.ID[1], Product: d.ID[2], Version: d.ID[3]},
 		Name:       name,
 		DeviceType: input.KeyboardDevice,
-		AbsInfos:   map[string]map[evdev.EvCode]evdev.AbsInfo{"": axisInfos(d)},
+		AbsInfos:   map[string]map[evdev.EvCode]evdev.AbsInfo{},
 	}
-	for _, s := range subHandlers(d) {
-		dev.Handlers = append(dev.Handlers, input.Handler{Name: s, DeviceInfo: input.DeviceInfo{Name: strings.TrimSpace(name + " " + s)}})
+	// every sub-handler is an event node of its own, with the ranges of the axes it reports
+	for i, s := range subHandlers(d) {
+		di := setEventName(fmt.Sprintf("event%d", 20+i), input.DeviceInfo{Name: strings.TrimSpace(name + " " + s)})
+		dev.Handlers = append(dev.Handlers, input.Handler{Name: s, DeviceInfo: di})
+		infos := dev.AbsInfos[di.Event()]
+		if infos == nil {
+			infos = map[evdev.EvCode]evdev.AbsInfo{}
+			dev.AbsInfos[di.Event()] = infos
+		}
+		for c, ai := range axisInfosOf(d, s) {
+			infos[c] = ai
+		}
 	}
 	return dev
 }
